@@ -7,6 +7,7 @@ export CARGO_NET_OFFLINE=true CARGO_TARGET_DIR=/verif/build/target
 mkdir -p build evidence
 (cd harness/fast && cargo build --offline -q)
 (cd harness/nofast && cargo build --offline -q)
+(cd harness/o0 && cargo build --offline -q)
 ./build/target/debug/harness tables > lean/LexprModel/Generated/Tables.lean.new
 if ! cmp -s lean/LexprModel/Generated/Tables.lean.new lean/LexprModel/Generated/Tables.lean; then
   mv lean/LexprModel/Generated/Tables.lean.new lean/LexprModel/Generated/Tables.lean
